@@ -71,7 +71,7 @@ theorem Cons.map {α β : Type} {f : Bytes → Out (α × Bytes)} {w : α → Na
   rw [hb]
   exact Nat.le_trans (hw a r1) l
 
-theorem readMapped_cons (n : Nat) : Cons (readMapped Rd.slice n) (fun _ => n) := by
+theorem readMapped_consumes (n : Nat) : Cons (readMapped Rd.slice n) (fun _ => n) := by
   intro bs a rest h
   simp only [readMapped, slice_readExact] at h
   split at h
@@ -81,7 +81,7 @@ theorem readMapped_cons (n : Nat) : Cons (readMapped Rd.slice n) (fun _ => n) :=
     rw [← h.2]; simp
   · simp at h
 
-theorem readBulk_cons (n : Nat) : Cons (Rd.slice.readBulk n) (fun _ => n) := by
+theorem readBulk_consumes (n : Nat) : Cons (Rd.slice.readBulk n) (fun _ => n) := by
   intro bs a rest h
   rw [slice_readBulk] at h
   split at h
@@ -91,18 +91,18 @@ theorem readBulk_cons (n : Nat) : Cons (Rd.slice.readBulk n) (fun _ => n) := by
     rw [← h.2]; simp
   · simp at h
 
-theorem readU8_cons : Cons (readU8 Rd.slice) (fun _ => 1) := by
+theorem readU8_consumes : Cons (readU8 Rd.slice) (fun _ => 1) := by
   unfold readU8
-  apply Cons.bind (readMapped_cons 1) (w₂ := fun _ _ => 0) _ _ (fun _ _ => by omega)
+  apply Cons.bind (readMapped_consumes 1) (w₂ := fun _ _ => 0) _ _ (fun _ _ => by omega)
   intro a bs b rest h
   dsimp only at h
   split at h
   · simp at h; exact ⟨[], by simp [h.2], Nat.zero_le _⟩
   · simp at h
 
-theorem readU32_cons : Cons (readU32 Rd.slice) (fun _ => 4) := by
+theorem readU32_consumes : Cons (readU32 Rd.slice) (fun _ => 4) := by
   unfold readU32
-  exact Cons.map (readMapped_cons 4) _ (fun _ _ => rfl) _ (fun _ _ => Nat.le_refl _)
+  exact Cons.map (readMapped_consumes 4) _ (fun _ _ => rfl) _ (fun _ _ => Nat.le_refl _)
 
 /-- `n` decodes of an element that occupies at least `m` bytes consume at least `n * m` bytes;
 the decoded list has exactly `n` elements -/
